@@ -49,14 +49,16 @@ pub fn all() -> Vec<Check> {
         Check {
             prop: "C08",
             level: "exploration",
-            parts: vec![part(B, 0, 1_000_000, 20_000_000, "producer/consumer operation histories over the real BodyWriter + Body, identity coding")],
+            parts: vec![part(B, 0, 1_000_000, 20_000_000, "producer/consumer operation histories over the real BodyWriter + Body, identity coding"),
+                        part(C, 0, 60_000, 5_000_000, "the same oracle (frames = accepted bytes, clean end) with the producer on its own thread, interleaved inside the operations")],
             rule: "one run = seeded config (chunk size, level, Accept-Encoding, payload kind) + up to 12 interleaved producer/consumer operations + drop + drain; non-trivial = bytes were written and compared with what the client decoded; distinct = (config, operation kinds in order); grid_cells = short-sequence grid: chunk size in {1,2,3,4,7} x every sequence of <= 3 operation kinds out of 10 (5550 cells), sampled not enumerated",
             assumptions: vec![],
         },
         Check {
             prop: "C09",
             level: "exploration",
-            parts: vec![part(B, 0, 200_000, 10_000_000, "as C08 with gzip negotiated, levels 1..9; independent inflater after every flush and at the end")],
+            parts: vec![part(B, 0, 200_000, 10_000_000, "as C08 with gzip negotiated, levels 1..9; independent inflater after every flush and at the end"),
+                        part(C, 0, 40_000, 3_000_000, "one valid gzip member = accepted bytes with the producer on its own thread")],
             rule: "as C08; the client decodes with a hand-written RFC 1951/1952 decoder; non-trivial = a gzip body was produced and decoded",
             assumptions: vec!["the independent inflater (sim/src/inflate.rs) is trusted; it shares no code with flate2/miniz_oxide"],
         },
